@@ -21,6 +21,12 @@ find(q) must return every live object with must(), only live objects with may(),
 once; everything else (objects meeting the query only outside the bounds or only on the
 bounds' edge, zero-area objects or queries) is "don't care".  Iteration must be the live
 objects in insertion order, len/in must agree with the model.
+
+Tagged sub-family 'readd' (never part of the main families): an object that was removed is
+added again.  It must then be live, found, counted and iterated exactly once; whether it is
+iterated at the place of its first or of its latest insertion is not decided by the
+property and is only counted.  A deviation that consists solely of re-added objects being
+iterated more than once carries the key `readd_iterated_twice`.
 """
 from __future__ import annotations
 
@@ -41,15 +47,16 @@ RULE = (
     "rank-1/general; rectangles proper, degenerate and reflected. distinct = distinct tuples, non-trivial = at least "
     "two of the three matrices are neither identity nor zero. "
     "plane-exh: per (gridsize in 1/7/50) x (7 index origins: zero, positive, negative, straddling zero, fractional, "
-    "bounds inside (-1,0)) every object interval x every query interval over a <=14-value lattice (bounds, bounds+-1/4, "
-    "far outside, first cell border +-1/4, -3/4,-1/4,0) on each axis: add, find, remove, find. distinct = (config,"
+    "bounds inside (-1,0)) every object interval x every query interval over a lattice of <=14 (quick) / <=20 (thorough) "
+    "values (bounds, bounds+-1/4, far outside, first cell border +-1/4, -3/4,-1/4,0; thorough adds the second border, "
+    "the middle, -1, 1/4, 1) on each axis: add, find, remove, find. distinct = (config,"
     "axis,object,query), non-trivial = object and query both meet the bounds. "
     "plane-hist: random histories of 4..200 operations, interval styles border/incell/subunit/span/touch/cross/"
     "outside/cover/zero/rand per axis, queries also derived from live objects (equal, edge-adjacent, inside, around); "
     "a find after every mutation plus a full audit at the end. distinct = distinct histories, non-trivial = >=2 adds "
     "and (a remove or a find with a non-empty must-set). Only live objects are removed, only new objects are added "
     "(a double add and the removal of an absent object are undocumented and not generated). Re-adding a removed "
-    "object occurs only in the tagged sub-family 'readd'."
+    "object occurs only in the tagged sub-family 'readd' (its iteration position is don't-care, it must appear once)."
 )
 LEVEL_TEXT = (
     "Bounded exploration: the laws are evaluated exactly on the generated tuples and the index is compared with a "
